@@ -3,6 +3,7 @@
 package verifrt
 
 import (
+	"sync"
 	"errors"
 	"io"
 	"net"
@@ -39,6 +40,7 @@ type Conn struct {
 	FailWrite    int  // index of the Write call that fails (-1: never)
 	FailDeadline int  // index of the Set*Deadline call that fails (-1: never)
 	DataWithErr  bool
+	MaxChunks    int // >0: the MaxChunks-th read delivers everything still available (bounds the number of chunks)
 
 	Out        []byte
 	WriteSizes []int
@@ -55,6 +57,9 @@ type Conn struct {
 	Remote     string
 	// ReadAfterClose counts reads attempted after Close.
 	ReadAfterClose int
+
+	mu  sync.Mutex
+	cch chan struct{}
 }
 
 func NewConn(name string, in []byte) *Conn {
@@ -81,13 +86,21 @@ func (c *Conn) Read(b []byte) (int, error) {
 		if c.EOFAtEnd {
 			return 0, io.EOF
 		}
-		Block("read on " + c.Name + " with no more scripted data")
+		if Symbolic() {
+			Block("read on " + c.Name + " with no more scripted data")
+		}
+		// native replay: block like a real idle connection until Close
+		<-c.closedCh()
+		return 0, net.ErrClosed
 	}
 	max := len(b)
 	if avail < max {
 		max = avail
 	}
-	n := IntRange("chunk_"+c.Name, 1, max)
+	n := max
+	if c.MaxChunks == 0 || idx < c.MaxChunks-1 {
+		n = IntRange("chunk_"+c.Name, 1, max)
+	}
 	copy(b, c.In[c.Rpos:c.Rpos+n])
 	c.Rpos += n
 	return n, nil
@@ -117,7 +130,19 @@ func (c *Conn) Close() error {
 	}
 	c.Closed = true
 	c.CloseOp = c.Ops
+	if !Symbolic() {
+		close(c.closedCh())
+	}
 	return nil
+}
+
+func (c *Conn) closedCh() chan struct{} {
+	c.mu.Lock()
+	defer c.mu.Unlock()
+	if c.cch == nil {
+		c.cch = make(chan struct{})
+	}
+	return c.cch
 }
 
 func (c *Conn) LocalAddr() net.Addr  { return Addr{"127.0.0.1:1"} }
